@@ -67,7 +67,7 @@ def run(chk):
     if not proved:
         broken.append("proof obligations of Props/C16.v do not check: " + plog[-800:])
     g = evalgen.Gen(chk.rng)
-    n = 8000 if thorough else 600
+    n = 10000 if thorough else 3000
     docs = [evalgen.gen_doc(chk.rng, maxdepth=4) for _ in range(n)]
     # string keys that look like numbers stay strings in path / key / parent
     docs = [numkeys(d, chk.rng) if chk.rng.random() < 0.3 else d for d in docs]
